@@ -48,7 +48,7 @@ var floatVals = []float64{0, math.Copysign(0, -1), 1, -1, 0.5, -1.5, 3.14, 1e21,
 	math.Float64frombits(0x7ff8000000000001), math.Float64frombits(0xfff0000000000001)}
 
 var stringVals = []string{"", "", "a", "ab", "\x00", "\x00\x00", " ", "héllo", "日本語", "  ", "\"quoted\"", "back\\slash", "tab\tnl\ncr\r", "\x01\x1f\x7f",
-	"\xff", "\xff\xfe\xfd", "a\xc3", "\xed\xa0\x80", strings.Repeat("x", 127), strings.Repeat("y", 128), strings.Repeat("z", 129), strings.Repeat("w", 300)}
+	"\xff", "\xff\xfe\xfd", "a\xc3", "\xed\xa0\x80", "\u2028\u2029", "₩ ✨ ∩ ∨", "\u2027\u202a", "\xe2\x80", "\xe2\x80\xa7", strings.Repeat("x", 127), strings.Repeat("y", 128), strings.Repeat("z", 129), strings.Repeat("w", 300)}
 
 var longStrings = []string{strings.Repeat("L", 16383), strings.Repeat("M", 16384), strings.Repeat("N", 16385)}
 
